@@ -109,6 +109,23 @@ def run(ctx: Ctx) -> None:
                 continue
             ctx.ob("C19.R1", fn, f"{norm(call)[:70]}", False, f"receiver {norm(recv)[:40]} is not obtained from the authenticated gate", node=call)
     ctx.count("C19.R1", n_sites, 43, "connection send/register call sites in APIClient")
+    # session-derived state (the negotiated API version: None without a connection) is read only after the gate has
+    # spoken: otherwise a command issued while disconnected dies of a TypeError instead of a connection error
+    n_ver = 0
+    for fn in funcs:
+        if fn is gate or fn.parent is not None or any(norm(d) == "property" for d in fn.node.decorator_list):
+            continue
+        reads = [x for x in own_nodes(fn.node) if isinstance(x, ast.Attribute) and x.attr == "api_version" and norm(x.value) == "self" and isinstance(x.ctx, ast.Load)]
+        if not reads:
+            continue
+        n_ver += len(reads)
+        gf = cfg_of(ctx, fn)
+        ev_ = occurred_before(gf, lambda n, fn=fn: ["gated"] if any(gate in res.callees(fn, c).funcs for c in node_calls(n)) else [])
+        for r in reads:
+            nodes = [n for n in gf.reachable() if n.ast is not None and n.kind in ("stmt", "cond") and any(x is r for x in walk_own(n.ast))]
+            ok = bool(nodes) and all("gated" in ev_.get(n, frozenset()) or any(gate in res.callees(fn, c).funcs for c in node_calls(n)) for n in nodes)
+            ctx.ob("C19.R1", fn, f"self.api_version read only after the authenticated gate ({norm(r)})", ok, "without a session api_version is None: the version comparison raises TypeError before the gate can refuse with a connection error", node=r)
+    ctx.count("C19.R1.version-reads", n_ver, 3, "reads of the negotiated API version in APIClient methods")
     ctx.analysed["closures_using_connection_without_gate"] = sorted(set(closures))
 
     # ------------------------------------------------------------------ R2
